@@ -104,9 +104,9 @@ def gen_stream(rng, term, tier, esc_ok):
 
 
 def gen(rng, tier, n):
-    for i in range(6 if tier == "quick" else 40):
-        # contention runs of the real Reader (src/reader.rs): trials, items per trial
-        yield "rdr;10;0;0;_;_;_;-;%d,%d;_|" % (rng.choice([150, 250]), rng.choice([5, 40, 200]))
+    for i in range(2 if tier == "quick" else 12):
+        # contention runs of the real Reader (src/reader.rs): trials, last lines per trial; 24 pollers of is_done() per trial
+        yield "rdr;10;0;0;_;_;_;-;%d,%d;_|" % (rng.choice([120, 160]), rng.choice([1, 3, 5]))
     for i in range(n):
         cli = rng.random() < (0.22 if tier == "quick" else 0.3)
         if cli:
